@@ -245,6 +245,12 @@ def main():
     finally:
         ctx.close()
 
+    if result.model_timeouts > max(20, result.compared // 20):
+        # the model answered too few of the cases within its wall-clock budget for the correspondence to mean anything
+        # (overloaded machine, or a driver that hangs): the check itself failed, nothing is said about the property
+        log('MACHINERY: %d model calls ran out of wall-clock time (compared=%d)' % (result.model_timeouts, result.compared))
+        return 2
+
     wall = round(time.time() - t0, 2)
     known = props.load_known_findings()
     violations = []
@@ -307,6 +313,7 @@ def main():
                 'disagreements': len(result.disagreements),
                 'model_unsupported_skipped': result.unsupported,
                 'both_exhausted_budget': result.both_fuel,
+                'model_wall_clock_timeouts_not_compared': result.model_timeouts,
             },
             'oracle_checks_on_impl': result.oracle_checks,
             'distribution': result.distribution,
